@@ -162,6 +162,65 @@ class C04(PropertyCheck):
                     "over {rectangular, Delaunay, function list} x every kernel shape in {1,3,5}^2 x {non-negative, "
                     "signed} on two fixed masks",
     }
+    modelled_functions = [
+        "autoarray/operators/convolver.py:Convolver.__init__",
+        "autoarray/operators/convolver.py:Convolver.frame_at_coordinates_jit",
+        "autoarray/operators/convolver.py:Convolver.convolve_mapping_matrix",
+        "autoarray/operators/convolver.py:Convolver.convolve_matrix_jit",
+        "autoarray/operators/convolver.py:Convolver.convolve_image_no_blurring",
+        "autoarray/operators/convolver.py:Convolver.convolve_no_blurring_jit",
+        "autoarray/inversion/pixelization/mappers/mapper_util.py:mapping_matrix_from",
+        "autoarray/inversion/pixelization/mappers/mapper_util.py:data_slim_to_pixelization_unique_from",
+        "autoarray/inversion/pixelization/mappers/abstract.py:AbstractMapper.unique_mappings",
+        "autoarray/inversion/pixelization/mappers/abstract.py:AbstractMapper.mapping_matrix",
+        "autoarray/inversion/inversion/imaging/inversion_imaging_util.py:w_tilde_data_imaging_from",
+        "autoarray/inversion/inversion/imaging/inversion_imaging_util.py:w_tilde_curvature_imaging_from",
+        "autoarray/inversion/inversion/imaging/inversion_imaging_util.py:w_tilde_curvature_preload_imaging_from",
+        "autoarray/inversion/inversion/imaging/inversion_imaging_util.py:w_tilde_curvature_value_from",
+        "autoarray/inversion/inversion/imaging/inversion_imaging_util.py:data_vector_via_w_tilde_data_imaging_from",
+        "autoarray/inversion/inversion/imaging/inversion_imaging_util.py:data_vector_via_blurred_mapping_matrix_from",
+        "autoarray/inversion/inversion/imaging/inversion_imaging_util.py:curvature_matrix_via_w_tilde_curvature_preload_imaging_from",
+        "autoarray/inversion/inversion/imaging/inversion_imaging_util.py:curvature_matrix_off_diags_via_w_tilde_curvature_preload_imaging_from",
+        "autoarray/inversion/inversion/imaging/inversion_imaging_util.py:curvature_matrix_off_diags_via_mapper_and_linear_func_curvature_vector_from",
+        "autoarray/inversion/inversion/inversion_util.py:curvature_matrix_via_mapping_matrix_from",
+        "autoarray/inversion/inversion/inversion_util.py:curvature_matrix_with_added_to_diag_from",
+        "autoarray/inversion/inversion/inversion_util.py:curvature_matrix_mirrored_from",
+        "autoarray/inversion/inversion/inversion_util.py:mapped_reconstructed_data_via_mapping_matrix_from",
+        "autoarray/inversion/inversion/inversion_util.py:mapped_reconstructed_data_via_image_to_pix_unique_from",
+        "autoarray/inversion/inversion/inversion_util.py:reconstruction_positive_negative_from",
+        "autoarray/inversion/inversion/abstract.py:AbstractInversion.param_range_list_from",
+        "autoarray/inversion/inversion/abstract.py:AbstractInversion.total_params",
+        "autoarray/inversion/inversion/abstract.py:AbstractInversion.no_regularization_index_list",
+        "autoarray/inversion/inversion/abstract.py:AbstractInversion.operated_mapping_matrix",
+        "autoarray/inversion/inversion/abstract.py:AbstractInversion.regularization_matrix",
+        "autoarray/inversion/inversion/abstract.py:AbstractInversion.curvature_reg_matrix",
+        "autoarray/inversion/inversion/abstract.py:AbstractInversion.reconstruction",
+        "autoarray/inversion/inversion/abstract.py:AbstractInversion.source_quantity_dict_from",
+        "autoarray/inversion/inversion/abstract.py:AbstractInversion.mapped_reconstructed_data",
+        "autoarray/inversion/inversion/imaging/abstract.py:AbstractInversionImaging.operated_mapping_matrix_list",
+        "autoarray/inversion/inversion/imaging/abstract.py:AbstractInversionImaging.linear_func_operated_mapping_matrix_dict",
+        "autoarray/inversion/inversion/imaging/mapping.py:InversionImagingMapping.data_vector",
+        "autoarray/inversion/inversion/imaging/mapping.py:InversionImagingMapping.curvature_matrix",
+        "autoarray/inversion/inversion/imaging/mapping.py:InversionImagingMapping.mapped_reconstructed_data_dict",
+        "autoarray/inversion/inversion/imaging/w_tilde.py:InversionImagingWTilde.__init__",
+        "autoarray/inversion/inversion/imaging/w_tilde.py:InversionImagingWTilde.w_tilde_data",
+        "autoarray/inversion/inversion/imaging/w_tilde.py:InversionImagingWTilde._data_vector_mapper",
+        "autoarray/inversion/inversion/imaging/w_tilde.py:InversionImagingWTilde.data_vector",
+        "autoarray/inversion/inversion/imaging/w_tilde.py:InversionImagingWTilde._data_vector_x1_mapper",
+        "autoarray/inversion/inversion/imaging/w_tilde.py:InversionImagingWTilde._data_vector_multi_mapper",
+        "autoarray/inversion/inversion/imaging/w_tilde.py:InversionImagingWTilde._data_vector_func_list_and_mapper",
+        "autoarray/inversion/inversion/imaging/w_tilde.py:InversionImagingWTilde.curvature_matrix",
+        "autoarray/inversion/inversion/imaging/w_tilde.py:InversionImagingWTilde._curvature_matrix_mapper_diag",
+        "autoarray/inversion/inversion/imaging/w_tilde.py:InversionImagingWTilde._curvature_matrix_off_diag_from",
+        "autoarray/inversion/inversion/imaging/w_tilde.py:InversionImagingWTilde._curvature_matrix_x1_mapper",
+        "autoarray/inversion/inversion/imaging/w_tilde.py:InversionImagingWTilde._curvature_matrix_multi_mapper",
+        "autoarray/inversion/inversion/imaging/w_tilde.py:InversionImagingWTilde._curvature_matrix_func_list_and_mapper",
+        "autoarray/inversion/inversion/imaging/w_tilde.py:InversionImagingWTilde.mapped_reconstructed_data_dict",
+        "autoarray/inversion/inversion/factory.py:inversion_imaging_from",
+        "autoarray/dataset/imaging/dataset.py:Imaging.w_tilde",
+        "autoarray/dataset/imaging/dataset.py:Imaging.convolver",
+        "autoarray/dataset/imaging/dataset.py:Imaging.apply_mask",
+    ]
     trusted_extra = [
         "numpy.linalg.solve (contract: exact solution; checked per case against the model's exact rational solve "
         "when the system is well conditioned) and np.dot / hstack / slicing glue: modelled, not verified",
